@@ -179,8 +179,8 @@ MCSLock::UnlockS(  //
     while ((cur & kPtrMask) == this_ptr) {
       const auto unlock = cur - kSLock;
       if (unlock & (kSMask | kSIXLock)) {
-        if (lock_.compare_exchange_weak(cur, unlock, kRelaxed, kRelaxed)) return;
-      } else if (lock_.compare_exchange_weak(cur, kNull, kRelaxed, kRelaxed)) {
+        if (lock_.compare_exchange_weak(cur, unlock, kRelease, kRelaxed)) return;
+      } else if (lock_.compare_exchange_weak(cur, kNull, kRelease, kRelaxed)) {
         tls_node_.reset(qnode);
         return;
       }
@@ -332,7 +332,7 @@ MCSLock::SIXGuard::UpgradeToX()  //
   uint64_t next_ptr{};
   SpinWithBackoff(
       [](std::atomic_uint64_t *lock, uint64_t *next_ptr) -> bool {
-        *next_ptr = lock->load(kRelaxed);
+        *next_ptr = lock->load(kAcquire);
         return (*next_ptr & kSMask) == kNoLocks;
       },
       &(qnode_->lock_), &next_ptr);
